@@ -373,6 +373,26 @@ func doReplay(path string) int {
 		defer wdEnd()
 		return r(a, path)
 	}
+	if a.Unit.Tag == "dictmc" {
+		// the BFS over the dictionary state machine is cheap: re-run it and look for the same class of finding
+		o := &WorkerOut{WireStates: map[string]bool{}, Events: map[string]int{}, Layers: map[string]int{}, Counters: map[string]int{}}
+		dictWorkerPart("quick", 0, 0, o)
+		hit := false
+		for _, f := range o.Findings {
+			if msgClass(f.Msg) == msgClass(a.Message) {
+				if !hit {
+					fmt.Printf("[C13] %s: %s\n", f.Key, f.Msg)
+				}
+				hit = true
+			}
+		}
+		if hit {
+			fmt.Printf("VIOLATION property=%s replay=%s\n", a.Property, path)
+			return 1
+		}
+		fmt.Println("replay: no violation of", a.Property, "on this tree")
+		return 0
+	}
 	out := runUnits([]Unit{a.Unit}, 0, 0)
 	bad := false
 	for _, f := range out.Findings {
